@@ -276,7 +276,7 @@ class MetricPickleReceiver(MetricReceiver, Int32StringReceiver):
 
       try:
         datapoint = (float(value), float(timestamp))  # force proper types
-      except (ValueError, TypeError):
+      except (ValueError, TypeError, OverflowError):  # OverflowError: an int too large for a float
         continue
 
       # convert python2 unicode objects to str/bytes
